@@ -180,6 +180,44 @@ def run_job(job):
             ev['evals'].append({'how': 'call_positional', 'raised': type(e).__name__, 'again': True, 'res': {'keys': [], 'coefs': []}})
         finally:
             signal.alarm(0)
+    # ---- near-equal siblings: the same symbols and blades, one float coefficient differing in the 4th significant digit;
+    #      A, B and A again are called (a multivector's call must not be served by what was compiled for another one)
+    for ci in range(job.get('n_sib', 0)):
+        try:
+            signal.alarm(job.get('budget', 60))
+            nb_ = 2 ** alg.d
+            if nb_ < 2:
+                break
+            keys = tuple(rng.sample(range(nb_), min(nb_, rng.randint(2, 3))))
+            sname = rng.choice(['s', 'q7', 'zz'])
+            S = sympy.Symbol(sname)
+            sval = rng.choice([2, -3, Fraction(1, 2)])
+            sid = {sname: 1000 + int(keys[0]) + 1}
+            seq = [Fraction(12341, 10000), Fraction(12349, 10000), Fraction(12341, 10000)]
+            for j, fl in enumerate(seq):
+                vals = [S] + [float(fl)] + [3] * (len(keys) - 2)
+                mv = MultiVector.fromkeysvalues(alg, keys, vals)
+                want = [K.G({(sid[sname],): 1}, {(): 1})] + [K.G.const(fl)] + [K.G.const(3)] * (len(keys) - 2)
+                enc = {'keys': [int(k) for k in keys], 'coefs': [g.to_json('rat') for g in want]}
+                evals = []
+                for how, f in (('call_positional', lambda: mv(float(sval) if isinstance(sval, Fraction) else sval)),
+                               ('call_keyword', lambda: mv(**{sname: float(sval) if isinstance(sval, Fraction) else sval}))):
+                    try:
+                        r = f()
+                        evals.append({'how': how, 'raised': '', 'res': {'keys': [int(k) for k in r.keys()], 'coefs': [K.coef_to_G(v).to_json('rat') for v in r.values()]}})
+                    except K.EncodeError:
+                        raise
+                    except Exception as e:   # noqa: BLE001
+                        evals.append({'how': how, 'raised': type(e).__name__, 'res': {'keys': [], 'coefs': []}})
+                events.append({'id': f"{job['prefix']}:s{ci}.{j}", 'kind': 'subst', 'op': 'id', 'ring': 'rat', 'args': [enc], 'params': [], 'raised': '',
+                               'res': enc, 'witness': {'keys': [], 'coefs': []},
+                               'sigma': [[sid[sname], [Fraction(sval).numerator, Fraction(sval).denominator]]], 'names': dict(sid), 'evals': evals})
+        except _Timeout:
+            skipped.append([f"{job['prefix']}:s{ci}", 'id', 'time budget'])
+        except (K.EncodeError, ValueError) as e:
+            skipped.append([f"{job['prefix']}:s{ci}", 'id', f'encode: {e}'])
+        finally:
+            signal.alarm(0)
     # ---- operators with irrational symbolic results: every evaluation route against the numeric operator ----------
     import pyref
     d_, sgn = pyref.sign_table(u)
